@@ -536,4 +536,34 @@ pub mod verif_hooks_psdcone {
     pub fn Rinv<T: FloatT>(k: &PSDTriangleCone<T>) -> &[T] {
         k.data.Rinv.data()
     }
+    /// `step_length_psd_component` on `d` (= W·Δz in svec form) together with the least
+    /// eigenvalue γ it obtained from LAPACK (`T::max_value()` for an empty cone)
+    pub fn step_length_component_gamma<T: FloatT>(
+        k: &mut PSDTriangleCone<T>,
+        d: &[T],
+        αmax: T,
+    ) -> (T, T) {
+        let data = &mut *k.data;
+        let α = step_length_psd_component(&mut data.workmat1, &mut data.Eig, d, &data.Λisqrt, αmax);
+        let γ = if d.is_empty() {
+            T::max_value()
+        } else {
+            data.Eig.λ.minimum()
+        };
+        (α, γ)
+    }
+    /// `svec_to_mat` into a fresh n×n matrix; column-major data
+    pub fn svec_to_mat_dense<T: FloatT>(n: usize, x: &[T]) -> Vec<T> {
+        let mut M = Matrix::<T>::zeros((n, n));
+        svec_to_mat(&mut M, x);
+        M.data().to_vec()
+    }
+    /// `mat_to_svec` of the n×n matrix with the given column-major data
+    pub fn mat_to_svec_dense<T: FloatT>(n: usize, m: &[T]) -> Vec<T> {
+        let mut M = Matrix::<T>::zeros((n, n));
+        M.data_mut().copy_from_slice(m);
+        let mut x = vec![T::zero(); triangular_number(n)];
+        mat_to_svec(&mut x, &M);
+        x
+    }
 }
